@@ -559,11 +559,8 @@ func verifNewTopic(kind int, nUsers int) *verifFixture {
 func (fx *verifFixture) attach(sess *Session, uid types.Uid, asChan bool) {
 	t := fx.topic
 	t.sessions[sess] = perSessionData{uid: uid, isChanSub: asChan}
-	name := t.original(uid)
-	if asChan {
-		name = types.GrpToChn(t.name)
-	}
-	sess.subs[name] = &Subscription{broadcast: t.clientMsg, done: t.unreg, meta: t.meta, supd: t.supd}
+	// Session.subs is keyed by the routable topic name (see subscriptionReply: addSub(t.name, ...)).
+	sess.subs[t.name] = &Subscription{broadcast: t.clientMsg, done: t.unreg, meta: t.meta, supd: t.supd}
 	if !asChan {
 		pud := t.perUser[uid]
 		pud.online++
